@@ -93,12 +93,27 @@ def run(ctx):
     ctx.note(f'blimpy write path reads container.{{{", ".join(sorted(reads))}}} and overwrites header{hdr_writes}')
     uw = ctx.func(FR + '_update_waterfall')
     r, I = ctx.run(uw, max_depth=1)
+    CONT = T.mk_attr(T.mk_attr(sym('self'), 'waterfall'), 'container')
+
+    def on_container(e):
+        """the object written is self.waterfall.container (by VALUE: through a local, a loop over targets, a helper)"""
+        b = e.data.get('base')
+        if b is None:
+            return False
+        def cont(t):
+            if t.key == CONT.key:
+                return True
+            a = t.single_atom()
+            if a is not None and a.kind == 'ite':       # the frame's Waterfall: newly created or already present
+                return cont(a.args[1]) and cont(a.args[2])
+            return a is not None and a.kind == 'attr' and a.args[1] == 'container'
+        return cont(b)
     sets = [e for e in I.events if e.kind == 'store' and e.data.get('via') == 'setattr']
     direct = [e for e in I.events if e.kind == 'store' and e.data.get('target') == 'attr' and e.data.get('via') is None
-              and ast.unparse(e.data['base_node']).endswith('waterfall.container')]
+              and on_container(e)]
     written = {}        # attr -> (value term, event)
     for e in sets:
-        if not ast.unparse(e.data['base_node']).endswith('waterfall.container'):
+        if not on_container(e):
             continue
         if e.loops:
             it = e.loops[-1]['iter'].single_atom()
@@ -140,7 +155,7 @@ def run(ctx):
                     ('foff', 'ITE(self.ascending, 1, -1) * self.df * 1e-6'), ('tstart', 'Time(self.t_start, format="unix").mjd')):
         ctx.formula('FORMULA', f"header['{k}'] == {spec}", uw, hdr.get(k, NONE), ctx.spec(uw, spec, I=ctx.interp()),
                     node=upd[0].node, construct=f"header_attr['{k}']")
-    both = [ast.unparse(e.data['recv_node']) for e in upd]
+    both = [(pretty(e.data['recv']) if e.data.get('recv') is not None else ast.unparse(e.data['recv_node'])) for e in upd]
     ctx.ob('MUSTPASS', 'both header dictionaries of the Waterfall (header, file_header) receive the update on every path', uw,
            any(x.endswith('.header') for x in both) and any(x.endswith('file_header') for x in both) and all(not e.pc for e in upd),
            {'updates': both}, node=upd[0].node, construct='header.update / file_header.update')
@@ -260,6 +275,8 @@ def run(ctx):
                     'waterfall' in ast.unparse(tgt.value):
                 owner = ctx.prog.enclosing_function(f2.module, n) or f2
                 editors.setdefault(owner.short, n)
+    from .common import fold_new_helpers
+    editors = fold_new_helpers(ctx, editors)
     ok_ed = {FR + '_update_waterfall', FR + '_encode_bytestrings', FR + '_decode_bytestrings'}
     extra = sorted(set(editors) - ok_ed)
     ctx.ob('WHOWRITES', 'only the frame\'s own save path edits a Waterfall header (an inherited Waterfall is shared state: what is saved '
